@@ -34,3 +34,12 @@ def declare(ct):
       tau_h="list[real]", curr_node="ref:$N", path="list[ref:$N]", late=("curr_node", "path"))
     F("VHCT", partition="ref:Partition", iteration="int", nu="real", rho="real", delta="real", bound="real", c="real",
       c1="real", curr_node="ref:$N", path="list[ref:$N]", late=("curr_node", "path"))
+
+    # ---- synthetic objectives
+    for c in ("Garland", "DoubleSine", "DifficultFunc", "Ackley", "Ackley_Normalized", "Himmelblau", "Himmelblau_Normalized",
+              "Rastrigin", "Rastrigin_Normalized", "Cexample", "Perturbed_Garland", "Perturbed_DoubleSine"):
+        F(c, fmax="real")
+    F("Perturbed_Garland", perturb="real")
+    F("DoubleSine", ep1="real", ep2="real", tmax="real")
+    F("Perturbed_DoubleSine", ep1="real", ep2="real", tmax="real", perturb="real")
+    F("Rastrigin_Normalized", k="real")
